@@ -1,4 +1,5 @@
 import HeimdallModel.Model.CacheExec
+import HeimdallModel.Model.CacheReload
 /-!
 # C11 — concrete values used by the non-vacuity examples of `Props/C11.lean`
 -/
@@ -43,6 +44,21 @@ def demo (recheck : Bool) : Mech (Nat × Nat) Nat where
 /-- the same mechanism with a cache whose serialisation halves the level of a response (stands for a YAML integer
 coming back as a float, a `[]string` coming back as `[]any`): a value read back differs from the value stored -/
 def lossy : Mech (Nat × Nat) Nat := { demo true with recode := fun v => v / 2 }
+
+/-- a finalizer with a reloadable signing key: the state is the number of the key in force, a request is a subject; the
+"token" for subject `r` signed with key `s` is `10 * s + r`; the key function writes key and subject (self-delimiting) -/
+def reloadDemo : Mech (Nat × Nat) Nat where
+  key x := List.replicate x.1 0 ++ 1 :: List.replicate x.2 0
+  fresh x := some (10 * x.1 + x.2)
+  accept _ _ := true
+  enabled _ := true
+  ttl _ _ := 10
+  recheck := true
+  recode := id
+
+/-- subject 3 asks twice, the key store is reloaded with key 2, subject 3 asks again, the key store is rolled back to
+key 1, subject 3 asks once more -/
+def reloadEvents : List (Event Nat Nat) := [.req 0 3, .req 1 3, .reload 2, .req 2 3, .reload 1, .req 3 3]
 
 /-- a table in which every user of the shared cache starts its key with a constant of its own -/
 def taggedTable : List (String × List Field) :=
